@@ -98,6 +98,19 @@ func (s *session) enumerateCrashes(m mstep) {
 	n := -1
 	fullRes := ""
 	pass := func(k int) {
+		if m.kind == "put" && k > 0 && k < n && s.cs != nil {
+			// the same failure as an I/O ERROR rather than a crash: the k-th write fails, Put returns the error
+			// and the handle lives on. It must then show the state before the Put (nothing in memory may have
+			// moved ahead of the datastore), and repeating the Put on the same handle must succeed.
+			s.out.Line("cfork")
+			e := s.fork(opSeed)
+			e.exec(m, k)
+			e.opObs("io")
+			e.opPut(m.cert, -1)
+			e.opObs("io-retry")
+			e.dropHandle()
+			s.out.Line("close")
+		}
 		s.out.Line("cfork")
 		f := s.fork(opSeed)
 		res := f.exec(m, k)
